@@ -309,13 +309,27 @@ def check_send(chk, cfg, m, fn):
                (ors[0].inst.loc if ors else p.ret_inst.loc), fn.name)
 
 
+def _pool_pointer_is_null(p, fn, m):
+    """True if the path requires a pointer computed from the queue's pool (basep + offset) to be NULL: the pool is an object,
+    such paths do not exist (they appear when an operation is rebuilt on a helper that returns the slot or NULL)."""
+    for c, taken, inst in p.conds:
+        cc = strip_casts(c)
+        if cc[0] == "icmp" and cc[1] in ("eq", "ne") and ("null",) in (strip_casts(cc[2]), strip_casts(cc[3])):
+            x = strip_casts(cc[2]) if strip_casts(cc[3]) == ("null",) else strip_casts(cc[3])
+            if x[0] == "p":
+                r = ptr_parts(x)[0]
+                if r[0] == "ld" and _mq_field(r[1], fn, m) == "basep" and ((cc[1] == "eq") == bool(taken)):
+                    return True
+    return False
+
+
 def check_receive(chk, cfg, m, fn):
     """The receiver tests bit receivep of full_flags and, when it returns a message, clears exactly that bit with one
     atomic AND.  The test may use the old value returned by the AND itself, or an atomic load made before it: only the
     receiver side ever clears bits (R5.clear-owner), so a bit it saw set is still set when it clears it."""
     tag = "%s[%s]" % (fn.name, cfg)
     for p in paths.enumerate_paths(fn, m):
-        if paths.is_assert_fail_path(p):
+        if paths.is_assert_fail_path(p) or _pool_pointer_is_null(p, fn, m):
             continue
         pathid = "%s path %s" % (tag, "->".join(b.lstrip("%") for b in p.blocks))
         rm = _events_on(p, fn, m, "full_flags", ("rmw",))
@@ -390,6 +404,25 @@ def check_observer(chk, cfg, m, fn):
             continue
         r = strip_casts(p.ret)
         ok = False
+        if fn.ret_ty.endswith("*"):
+            # an observer that hands out the slot or NULL (a peek): on each path, NULL exactly when the bit it tested is clear
+            rp = None
+            for c, t, i in p.conds:
+                for x in paths.subexprs(c):
+                    if x[0] == "ld" and _mq_field(x[1], fn, m) == "receivep":
+                        rp = x
+            try:
+                good = rp is not None
+                for flagval in (0, 1 << 3, 0xffffffff ^ (1 << 3), 0xffffffff):
+                    env = {lds[0].val: flagval, rp: 3} if rp is not None else {lds[0].val: flagval}
+                    mine = [cd for cd in p.conds if paths.contains(cd[0], lambda x: x == lds[0].val)]
+                    if all(paths.cond_holds(cd, env) for cd in mine) and (bool(flagval & 8) == _is_null(p.ret)):
+                        good = False
+                chk.ob("R5.empty-observer", tag + " " + ("NULL" if _is_null(p.ret) else "slot"), good,
+                       "the observer reports 'nothing there' (NULL) exactly when bit receivep of full_flags is clear", p.ret_inst.loc, fn.name)
+            except NoValue:
+                chk.unknown("R5.empty-observer", tag, "decision not evaluable", p.ret_inst.loc)
+            continue
         try:
             rp = None
             for x in paths.subexprs(r):
